@@ -1208,6 +1208,43 @@ def run_nodot(args, R):
     R.case(sample={'kind': 'nodot'}, nontrivial=True, n=res['roundtrips'])
 
 
+def big_texts():
+    """Hand-made texts on 300 vertices (numbers beyond the small-integer cache
+    of the interpreter, three digits): a valid one and single corruptions at
+    high-numbered vertices, for the in-house formats."""
+    out = []
+    for gtype in ('simple', 'digraph', 'dag'):
+        base = [(1, 2), (257, 299), (258, 300), (299, 300)]
+        variants = {'valid': base, 'loop-high': base + [(299, 299)], 'loop-257': base + [(257, 257)],
+                    'loop-low': base + [(2, 2)], 'out-of-range': base + [(300, 301)],
+                    'repeated': base + [(257, 299)], 'reversed-repeat': base + [(299, 257)]}
+        for nm, es in sorted(variants.items()):
+            text = 'c %s\np edge 300 %d\n' % (nm, len(es)) + ''.join('e %d %d\n' % e for e in es)
+            out.append({'kind': 'text', 'gtype': gtype, 'fmt': 'dimacs', 'text': text, 'big': nm})
+            adj = {}
+            for (u, v) in es:
+                if gtype == 'simple':
+                    adj.setdefault(u, []).append(v)
+                    if u != v:
+                        adj.setdefault(v, []).append(u)
+                else:
+                    adj.setdefault(v, []).append(u)      # predecessors of v
+            lines = ['c %s' % nm, '300']
+            for v in range(1, 301):
+                lines.append('%d : %s0' % (v, ''.join('%d ' % u for u in adj.get(v, []))))
+            out.append({'kind': 'text', 'gtype': gtype, 'fmt': 'kthlist', 'text': '\n'.join(lines) + '\n', 'big': nm})
+    return out
+
+
+def run_bigtexts(args, R):
+    for case in big_texts():
+        vs = check_text(case, None, R.stats)
+        R.case(sample={k_: v_ for k_, v_ in case.items() if k_ != 'text'}, nontrivial=True)
+        R.outcomes['bigtext:%s' % case['fmt']] += 1
+        for v in vs[:2]:
+            R.bad(v['key'], v['what'], v['case'])
+
+
 def shards(tier, seed):
     units = plan(tier, seed)
     k = 64
@@ -1222,4 +1259,4 @@ def shards(tier, seed):
     # heaviest shards first so that the pool ends evenly
     idx = sorted(range(k), key=lambda b: (-loads[b], b))
     return [('s%03d' % n, 'run_units', bins[b]) for n, b in enumerate(idx) if bins[b]] + \
-        [('nodot', 'run_nodot', {})]
+        [('nodot', 'run_nodot', {}), ('bigtexts', 'run_bigtexts', {})]
